@@ -380,13 +380,18 @@ def _walk(node):
             yield x
 
 
-def discobrackets_encode(treebank, label_of=None):
+def discobrackets_encode(treebank, label_of=None, rng=None):
+    """with rng: the children of every node are written in random order
+    (the indices, not the bracket order, carry the token positions)"""
     label_of = label_of or (lambda n: n.label)
 
     def enc(n):
         if not n.children:
             return '(%s %d)' % (label_of(n), n.num)
-        return '(' + label_of(n) + ''.join(enc(k) for k in n.kids()) + ')'
+        kids = n.kids()
+        if rng is not None:
+            rng.shuffle(kids)
+        return '(' + label_of(n) + ''.join(enc(k) for k in kids) + ')'
     out = []
     for spec in treebank:
         m = model.from_spec(spec['root'])
